@@ -1324,7 +1324,7 @@ KNOWN_CLASS = {"F4": (M_DRAINLEFT, "F4_witness.cases"), "F5": (M_PREPHELD, "F5_w
 # theorems pinned per property (coq/Props/<prop>.v)
 PINS = {
     "C01": ["C01_exactly_once_fifo", "F4_refuted"], "C02": ["C02_fifo_lifecycle", "C02_order_gating_partial"], "C03": ["C03_once_partial"],
-    "C04": ["C04_owner_count_partial"], "C05": ["C05_ret_exactly_once", "C05_ret_exactly_once_checked", "C05_ret_once_partial"], "C06": ["C06_quiescence_lazy_idle", "C06_plain_any_deferrer"],
+    "C04": ["C04_owner_count_partial"], "C05": ["C05_as_checked", "C05_ret_exactly_once", "C05_calls_not_lost", "C05_ret_exactly_once_checked", "C05_ret_once_partial"], "C06": ["C06_quiescence_lazy_idle", "C06_plain_any_deferrer"],
     "C15": ["C15_time"], "C16": ["C16_released_once_partial", "C16_decomposition", "C16_heap_partial"], "C20": ["C20_open_close_filter", "C20_filter_table"],
 }
 PROOF_FILES = ["R/Syntax.v", "R/Rt.v", "R/Mon.v"]
@@ -1345,8 +1345,8 @@ CLAIM = {
                 missing="forall-programs statement of C03_ok: validated on traces only"),
     "C04": dict(partial=True, proved="C04_owner_count_partial: translated strong count is an exact counter below saturation; last owner drop queues terminate(Dropped) at the end of the main queue",
                 missing="forall-programs statement of C04_ok (count = number of live owners needs linearity of handles over the whole configuration): validated on traces only"),
-    "C05": dict(partial=True, proved="C05_ret_exactly_once: forall d p fuel t, exec d fuel p = Done t -> NoDup (ret_ids t) -> no_container_leak t -> C05_ok t = true (every Ret created once and invoked exactly once, with the value sent or None where it is dropped; hypotheses decidable on the trace: distinct Ret ids, no leaked closure / actor value / notifier; refuted without them: F5, F7, self-reference cycle, inline-deferrer leftover); C05_ret_exactly_once_checked: the same with the boolean hyp05; C05_ret_once_partial: one-step fact",
-                missing="the second monitor of the check, C05_calls_ok (the call behind a ret_to!-style Ret starts exactly once unless its target terminates), is validated on traces only"),
+    "C05": dict(partial=False, proved="C05_as_checked: forall p fuel t, exec DGlobal fuel p = Done t -> NoDup (ret_ids t) -> no_container_leak t -> C05_ok t && C05_calls_ok t = true; C05_ret_exactly_once: the first conjunct for either deferrer (every Ret created once and invoked exactly once, with the value sent or None where it is dropped); C05_calls_not_lost: the second conjunct without hypotheses (DGlobal). The two hypotheses are decidable on the trace (distinct Ret ids; no leaked closure / actor value / notifier) and cannot be dropped: F5, F7, a self-reference cycle and the inline-deferrer leftover are refuted at model level (C05_*_model)",
+                missing=""),
     "C16": dict(partial=True, proved="C16_released_once_partial: forall d p fuel t, exec d fuel p = Done t -> C16_once_ok K16_lin t = true (closure instances, actor values, user Rets, termination notifiers are consumed only if created before and not consumed yet); C16_decomposition: C16_ok = C16_flags_ok && C16_once_ok K && C16_once_ok (not K); C16_heap_partial: translated MinRc table frees exactly on 1->0, clone/drop round trip, model frees the cell exactly then",
                 missing="at-most-once for tokens, Fwd objects and orphaned value tokens (kinds outside the census of Lin.v); the flag part of C16_ok (no leak outside F4/F5/F7, no access to a freed cell); machine-level memory safety is sampled under AddressSanitizer (thorough tier)"),
     "C20": dict(partial=False, proved="C20_open_close_filter: forall d p fuel t, exec d fuel p = Done t -> Z.of_nat (length t) < 2^64-1 -> C20_ok (observable t) = true (observable = the trace without the model-only '~' events; bound: LogIDs are u64 counters); C20_filter_table (9x9 table of the translated From<LogLevel>/allows)",
